@@ -318,6 +318,16 @@ def _replay_e2e(vals_list, mask, third):
             continue
         M, cm = concrete_matrix(v, masks)
         R = cm.make_tomographic_reconstructor()
+        off = numpy.asarray(M, dtype=float)[R.shape[0]:, R.shape[0]:]
+        try:
+            singular = (not numpy.all(numpy.isfinite(off))) or numpy.linalg.cond(off) > 1e6
+        except Exception:
+            singular = True
+        if singular:
+            # e.g. the generic geometry (all guide stars on axis at one altitude): C_off,off is singular - outside the
+            # invertible case this check claims; nothing the real code returns there confirms or refutes anything
+            last = dict(what="geometry with a (numerically) singular C_off,off: outside the invertible case", geometry=v)
+            continue
         want = numpy.zeros(R.shape)
         for k in range(R.shape[0]):
             want[k, k] = 1.0
